@@ -45,6 +45,11 @@ func c06rSigs() []c06rSig {
 					s = append(s, ids[i])
 				}
 				rt := NewLogsRouter(cm)
+				// the router must not keep using the caller's map: overwrite every entry with a foreign consumer (index -1)
+				foreign, _ := consumer.NewLogs(func(_ context.Context, d plog.Logs) error { return cb(-1, d) })
+				for k := range cm {
+					cm[k] = foreign
+				}
 				c, err := rt.Consumer(s...)
 				if err != nil {
 					return nil, false, err
@@ -86,6 +91,11 @@ func c06rSigs() []c06rSig {
 					s = append(s, ids[i])
 				}
 				rt := NewMetricsRouter(cm)
+				// the router must not keep using the caller's map: overwrite every entry with a foreign consumer (index -1)
+				foreign, _ := consumer.NewMetrics(func(_ context.Context, d pmetric.Metrics) error { return cb(-1, d) })
+				for k := range cm {
+					cm[k] = foreign
+				}
 				c, err := rt.Consumer(s...)
 				if err != nil {
 					return nil, false, err
@@ -127,6 +137,11 @@ func c06rSigs() []c06rSig {
 					s = append(s, ids[i])
 				}
 				rt := NewTracesRouter(cm)
+				// the router must not keep using the caller's map: overwrite every entry with a foreign consumer (index -1)
+				foreign, _ := consumer.NewTraces(func(_ context.Context, d ptrace.Traces) error { return cb(-1, d) })
+				for k := range cm {
+					cm[k] = foreign
+				}
 				c, err := rt.Consumer(s...)
 				if err != nil {
 					return nil, false, err
